@@ -1,6 +1,5 @@
 //@ item: float/src/utils.rs :: shr_digits
 pub fn shr_digits<const B: Word>(value: &IBig, exp: usize) -> IBig
-/*@ #[ref_lhs(value)] @*/
 /*@
     requires B >= 2,
         exp * 64 <= usize::MAX,     // resource (pos_room): the bit count exp * log2(B) of the power-of-two branch fits usize
@@ -10,6 +9,7 @@ pub fn shr_digits<const B: Word>(value: &IBig, exp: usize) -> IBig
         exists|lo: int| #[trigger] is_trunc_divrem(value.v(), ipow(B as int, exp as nat), ret.v(), lo),
 @*/
 {
+    /*@ #[ref_lhs(value)] @*/     // rule D11h; placed in the body so that a `//@@ SIG` of this copy does not see it
     /*@ broadcast use round_int_axioms; @*/
     if exp == 0 {
         /*@ proof {
